@@ -185,9 +185,16 @@ def check_case(ctx, case):
         under = any(ws_obs[k] > 0 and sp[k] == 0 for k in range(S.nc))
         kept = ws_obs * (sp > 0)
         for name, fn, stat, skip_empty in (("S", CE.spatial_test, s_stat, True), ("PL", CE.pseudolikelihood_test, pl_stat, False)):
-            o = call(fn, forecast(), observed(), verbose=VB)
+            if case.get("np_divide_raise"):
+                # the caller's numpy error state turns division by zero / log(0) into exceptions (numpy.seterr(divide='raise')):
+                # these two tests shield their own log(0) and must still flag under-sampling instead of raising
+                with numpy.errstate(divide="raise"):
+                    o = call(fn, forecast(), observed(), verbose=VB)
+                ctx.count("spatial_tests_under_divide_raise")
+            else:
+                o = call(fn, forecast(), observed(), verbose=VB)
             if not o.ok:
-                ctx.unexpected(o, name + "_test")
+                ctx.unexpected(o, name + "_test" + (":numpy_divide_raise" if case.get("np_divide_raise") else ""))
                 continue
             r = o.value
             if r is not None:
@@ -338,7 +345,8 @@ def cases(draw):
         obs = mk(sampled, draw(st.integers(1, 6)))
     return {"setup": setup, "cats": cats, "obs": obs, "source": draw(st.sampled_from(["list", "file_store", "file_nostore"])),
             "seed": draw(st.sampled_from([0, 1, 12345])), "obs_class": cls, "verbose": draw(st.integers(0, 3)) == 0,
-            **({"repeat": draw(st.sampled_from([10, 25]))} if draw(st.integers(0, 11)) == 0 else {})}
+            **({"repeat": draw(st.sampled_from([10, 25]))} if draw(st.integers(0, 11)) == 0 else {}),
+            **({"np_divide_raise": True} if draw(st.integers(0, 3)) == 0 else {})}
 
 
 def run(ctx):
